@@ -55,8 +55,8 @@ theorem marker_interact (env : Env W HS) (Good : Val → Prop) (WInv : W → Pro
     | obj k pl => exact ⟨hp', by rcases ha with h | h; exact absurd h (by simp); exact h⟩
   | err e => exact ⟨hp', ha⟩
 
-theorem markerKit (env : Env W HS) (Good : Val → Prop) (WInv : W → Prop) (hg : HostGood env.host Good WInv)
-    (hh : HndGood env.host Good) : InvKit env (MarkerFree Good WInv) Good where
+theorem markerKitS (env : Env W HS) (Good : Val → Prop) (WInv : W → Prop) (hg : HostGood env.host Good WInv)
+    (hh : HndGood env.host Good) : InvKitS env (MarkerFree Good WInv) Good (fun x => bodyName x = true) where
   nUser := fun x hx => by simp [bodyName, hx]
   nValue := by decide
   nYield := by decide
@@ -168,6 +168,10 @@ namespace Ptera.Sem
 open Ptera.Py
 
 variable {W HS : Type}
+
+theorem markerKit (env : Env W HS) (Good : Val → Prop) (WInv : W → Prop) (hg : HostGood env.host Good WInv)
+    (hh : HndGood env.host Good) : InvKit env (MarkerFree Good WInv) Good :=
+  (markerKitS env Good WInv hg hh).toN
 
 theorem marker_hookMeta (env : Env W HS) (Good : Val → Prop) (WInv : W → Prop) (hh : HndGood env.host Good)
     (name : String) (ann : Option Ann) (v : Val) (hv : Good v) :
